@@ -33,6 +33,7 @@ pub enum ForgeOp {
     SigRemove { n: u32 },
     SigOwnUnderOther { n: u32 },
     TruncateResults { n: u32 },
+    CanonRewrite { n: u32 },
     // ---- wholesale re-attribution + structural mutation (C01) ----
     Reattribute,
     Struct { path_sel: u32, kind: u8, val: u64 },
@@ -60,6 +61,7 @@ impl ForgeOp {
             ForgeOp::SigRemove { .. } => "sig_remove",
             ForgeOp::SigOwnUnderOther { .. } => "sig_own_under_other",
             ForgeOp::TruncateResults { .. } => "truncate_results",
+            ForgeOp::CanonRewrite { .. } => "canon_rewrite",
             ForgeOp::Reattribute => "reattribute",
             ForgeOp::Struct { .. } => "struct",
         }
@@ -206,6 +208,33 @@ pub fn forge(w: &World, m: &Msg, by: Option<usize>, ops: &[ForgeOp]) -> Option<M
             }
         }
     }
+    // withholding is not tampering: dropping a peer's results together with its signature (or dropping a
+    // signature of a peer that has no results left) yields data an honest sender could have produced earlier
+    if matches!(nm.must_reject.as_deref(), Some("truncate_results") | Some("sig_remove"))
+        && nm.particle.is_none()
+        && ops.iter().all(|o| matches!(o, ForgeOp::TruncateResults { .. } | ForgeOp::SigRemove { .. }))
+    {
+        if let (Ok(a), Ok(b)) = (interp::decode(&m.data), interp::decode(&bytes)) {
+            let before = cids_by_peer(&a.data);
+            let after = cids_by_peer(&b.data);
+            let sigs_after: Vec<String> = serde_json::to_value(&b.data.signatures)
+                .ok()
+                .and_then(|v| v.as_object().map(|o| o.keys().cloned().collect()))
+                .unwrap_or_default();
+            let mut needs_reject = false;
+            for (peer, cids) in after.iter() {
+                let pk = pk_string_of_peer(w, peer).unwrap_or_default();
+                let has_sig = sigs_after.contains(&pk);
+                let unchanged = before.get(peer) == Some(cids);
+                if !has_sig || !unchanged {
+                    needs_reject = true;
+                }
+            }
+            if !needs_reject {
+                nm.must_reject = None;
+            }
+        }
+    }
     nm.data = Rc::new(bytes);
     let _ = json!(null);
     let _: Option<Value> = None;
@@ -249,6 +278,35 @@ pub fn peers_with_results(data: &InterpreterData) -> Vec<String> {
         }
     }
     v
+}
+
+/// CIDs of call/canon results attributed (by stored tetraplet) to each peer, in trace order
+pub fn cids_by_peer(data: &InterpreterData) -> std::collections::BTreeMap<String, Vec<String>> {
+    use air_interpreter_data::{CallResult, CanonResult, ExecutedState, ValueRef};
+    let mut out: std::collections::BTreeMap<String, Vec<String>> = Default::default();
+    for st in data.trace.iter() {
+        let p = match st {
+            ExecutedState::Call(CallResult::Executed(ValueRef::Scalar(c)))
+            | ExecutedState::Call(CallResult::Executed(ValueRef::Stream { cid: c, .. }))
+            | ExecutedState::Call(CallResult::Failed(c)) => data
+                .cid_info
+                .service_result_store
+                .get(c)
+                .and_then(|a| data.cid_info.tetraplet_store.get(&a.tetraplet_cid))
+                .map(|t| (t.peer_pk.clone(), format!("{c:?}"))),
+            ExecutedState::Canon(CanonResult::Executed(c)) => data
+                .cid_info
+                .canon_result_store
+                .get(c)
+                .and_then(|a| data.cid_info.tetraplet_store.get(&a.tetraplet))
+                .map(|t| (t.peer_pk.clone(), format!("{c:?}"))),
+            _ => None,
+        };
+        if let Some((p, c)) = p {
+            out.entry(p).or_default().push(c);
+        }
+    }
+    out
 }
 
 pub fn hex(b: &[u8]) -> String {
